@@ -5,7 +5,7 @@
    Section variables: they are the trusted base named in the evidence.  Everything about integers,
    booleans, text, categorical labels, paths, the group-by split and the index lookup is proved.   *)
 From Coq Require Import NArith ZArith Bool Ascii String List Permutation.
-From Pq Require Import Base.Bytes Impl.Partition Proofs.PartitionStr Proofs.PartitionProofs Proofs.PartitionE2E Proofs.PartitionNulls Impl.PartHandle Proofs.PartHandleProofs.
+From Pq Require Import Base.Bytes Impl.Partition Proofs.PartitionStr Proofs.PartitionProofs Proofs.PartitionE2E Proofs.PartitionNulls Impl.PartHandle Proofs.PartHandleProofs Proofs.PartitionMixed.
 Import ListNotations.
 
 Section C08.
@@ -212,7 +212,32 @@ Section C08.
     = read_model F T D feqb teqb deqb f_eq_Z parse_float parse_time_np parse_time_fmt parse_time_pd parse_delta P pm ord
         (fold_left (apply_edit F T D P) ops fs).
   Proof. exact (handle_program F T D feqb teqb deqb f_eq_Z parse_float parse_time_np parse_time_fmt parse_time_pd parse_delta P). Qed.
+
+  (* ---- drill levels that MIX classes (wave 3; Proofs/PartitionMixed.v): what the reader guarantees, for EVERY list of drill directories,
+     with no hypothesis on the values.  A level holding ANY text that no guess of _val_to_num converts is text as a whole (fix 2ae7489):
+     api._path_to_cats labels it with exactly the directory texts of that level - including the values it had converted before it met the
+     first text - and core.read_row_group then gives a row group the text of its own directory without converting it.  (Levels without any
+     text keep the guessed values merged under Python's ==: exercised by the correspondence and the drill rule of the oracle only.) *)
+  Theorem C08_drill_mixed_level_is_text : forall (pps : list (str * list str)) cats,
+    path_to_cats F T D feqb teqb deqb f_eq_Z parse_float parse_time_np parse_time_fmt parse_time_pd parse_delta false [] pps = Ok cats ->
+    forall pp i x', In pp pps -> nth_error (snd pp) i = Some x' ->
+    is_vstr F T D (parse_guess x') = true ->
+    (exists labels, In (dir_name i, labels) cats) /\
+    forall labels, In (dir_name i, labels) cats ->
+      exists xs, labels = map (@VStr F T D) xs /\
+                 (forall x, In x xs <-> exists pp', In pp' pps /\ In (dir_name i, x) (drill_hits (snd pp'))).
+  Proof. exact (drill_text_level F T D feqb teqb deqb f_eq_Z parse_float parse_time_np parse_time_fmt parse_time_pd parse_delta). Qed.
+
+  Theorem C08_text_level_reads_own_directory : forall hive pm path k xs x tail,
+    filter (fun p => match p with k0 :: _ => str_eqb k0 k | [] => false end) (row_partitions hive path) = [k; x] :: tail ->
+    In x xs ->
+    row_cell F T D feqb teqb deqb f_eq_Z parse_float parse_time_np parse_time_fmt parse_time_pd parse_delta hive pm path (k, map (@VStr F T D) xs)
+    = Some (k, VStr x).
+  Proof. exact (text_level_read F T D feqb teqb deqb f_eq_Z parse_float parse_time_np parse_time_fmt parse_time_pd parse_delta). Qed.
 End C08.
+
+Print Assumptions C08_drill_mixed_level_is_text.
+Print Assumptions C08_text_level_reads_own_directory.
 
 (* the same edit WITHOUT re-deriving the stored partition state (anything cached on the handle that an edit does not refresh):
    the read through the handle differs from the fresh read - computed witness: k=a on disk, k=b appended through the handle *)
